@@ -252,6 +252,11 @@ int tls13_send(TLS_CONNECT *conn, const uint8_t *data, size_t datalen, size_t *s
 
 	tls_trace("send {ApplicationData}\n");
 
+	// one record carries at most 2^14 bytes, the caller sends the rest with the next call (as in tls_send)
+	if (datalen > TLS_MAX_PLAINTEXT_SIZE) {
+		datalen = TLS_MAX_PLAINTEXT_SIZE;
+	}
+
 	if (conn->is_client) {
 		key = &conn->client_write_key;
 		iv = conn->client_write_iv;
@@ -276,10 +281,13 @@ int tls13_send(TLS_CONNECT *conn, const uint8_t *data, size_t datalen, size_t *s
 	record[4] = (uint8_t)(recordlen);
 	recordlen += 5;
 
-	tls_record_send(record, recordlen, conn->sock);
-	tls_record_trace(stderr, record, tls_record_length(record), 0, 0);
-
 	tls_seq_num_incr(seq_num);
+
+	if (tls_record_send(record, recordlen, conn->sock) != 1) {
+		error_print();
+		return -1;
+	}
+	tls_record_trace(stderr, record, tls_record_length(record), 0, 0);
 
 	*sentlen = datalen;
 
